@@ -24,7 +24,8 @@ ASSUMPTIONS = [
     'allocation failure is modelled by raising MemoryError at a Python line, cancellation by raising a BaseException there',
     'goldens are computed in pristine forked children (frozen clock, fault-free sinks); EPS/PDF/LaTeX timestamps are blanked and '
     '.svgz output is gunzipped before comparison',
-    'only module-level data objects that exist right after import are "lookup tables"; new attributes are counted, not flagged',
+    'lookup tables = module-level data objects of segno.* that are non-empty containers, compiled patterns or named constants right after import; '
+    'objects that are empty/None at import (caches) and new attributes are not flagged by c15.tables (c15.result catches them if they matter)',
     'QRCode.show() and write_terminal_win are not simulated (no property covers them)',
 ]
 STEP_BUDGET = {'quick': 40_000_000, 'thorough': 400_000_000}
@@ -60,8 +61,16 @@ def snapshot_tables():
         for name, val in vars(m).items():
             if name.startswith('__'):
                 continue
-            if isinstance(val, _DATA_TYPES) or isinstance(val, re.Pattern):
-                snap['%s.%s' % (mn, name)] = hash(_canon(val))
+            if not (isinstance(val, _DATA_TYPES) or isinstance(val, re.Pattern)):
+                continue
+            # a lookup table is data the library ships with: a non-empty container, a compiled pattern, or a
+            # named constant. Objects that are empty / None at import (a memo cache waiting to be filled, a lazily
+            # built structure) are not lookup tables -- if they make results history-dependent, c15.result says so.
+            if isinstance(val, (dict, list, set, frozenset, tuple, bytes, bytearray, str)) and len(val) == 0:
+                continue
+            if val is None or (isinstance(val, (int, float, bool)) and not (name.isupper() or mn == 'segno.consts')):
+                continue
+            snap['%s.%s' % (mn, name)] = hash(_canon(val))
     return snap
 
 
@@ -107,6 +116,8 @@ def gen_scenario(batch_seed, i, tier):
             r = rng.random()
             if not makes or r < 0.35:
                 spec = ops.gen_make(rng, 's%d' % counter, small=small)
+                if makes and rng.random() < 0.3:
+                    spec = ops.vary_make(rng, rng.choice(makes), spec)
                 counter += 1
                 makes.append(spec)
             elif r < 0.9:
